@@ -480,6 +480,7 @@ func (w *World) scanView(what string, src iterable, reverse bool) {
 		return
 	}
 	w.checkView(what, t0, pts, rks)
+	w.markersClosed(what, pts)
 	w.count("view:" + strings.SplitN(what, " ", 2)[0])
 }
 
